@@ -34,6 +34,23 @@ def same_functor(a, b):
     return a.signature == b.signature
 
 
+def fresh_anon(terms):
+    """The terms with every anonymous variable (None) replaced by a distinct fresh named variable: the reference must
+    not reuse one anonymous occurrence after it has been copied through a binding (f(_) = X, g(X) = X ...)."""
+    counter = [-1000]
+
+    def walk(t):
+        if t is None:
+            counter[0] -= 1
+            return counter[0]
+        if _is_var(t):
+            return t
+        if not t.args:
+            return t
+        return t.with_args(*[walk(a) for a in t.args])
+    return [walk(t) for t in terms]
+
+
 def ref_unify(a, b, s):
     """Extend triangular substitution s; raises NoUnifier."""
     a, b = walk(a, s), walk(b, s)
@@ -128,7 +145,12 @@ def has_anon(t):
 def check_unify_value(t1, t2):
     """'' if the real unify_value agrees with the reference on (t1, t2), else a description."""
     try:
-        ref = ref_unify(t1, t2, {})
+        if has_anon(t1) or has_anon(t2):
+            # only solvability is taken from the reference when anonymous variables occur (each occurrence distinct)
+            q1, q2 = fresh_anon([t1, t2])
+            ref = ref_unify(q1, q2, {})
+        else:
+            ref = ref_unify(t1, t2, {})
         ref_ok, ref_occ = True, False
     except NoUnifier as e:
         ref, ref_ok, ref_occ = None, False, e.occurs
@@ -167,7 +189,8 @@ def check_eq_neq(t1, t2):
     """=/2 and \\=/2 builtins against the reference."""
     from problog.engine_builtin import _builtin_eq, _builtin_neq
     try:
-        ref_unify(t1, t2, {})
+        r1, r2 = fresh_anon([t1, t2])
+        ref_unify(r1, r2, {})
         ref_ok = True
     except NoUnifier:
         ref_ok = False
